@@ -23,14 +23,13 @@ let ust_i = function U_PRE -> 0 | U_LABEL -> 1 | U_LO -> 2 | U_HI -> 3 | U_BODY 
 let rst_i = function R_PRE -> 0 | R_TYPE -> 1 | R_LO -> 2 | R_HI -> 3 | R_HCRC -> 4 | R_BODY -> 5 | R_CRC -> 6
 
 (* generic over the parser: recv function, initial state, state printer, reference framer *)
-let run_proto proto recv init st_s reference stream parts =
+let run_gen recv init st_s summ refm stream parts =
   let b = Buffer.create 256 in
-  let refm = join "," (List.map (msg_s proto) (reference stream)) in
   let agree = ref true in
   List.iteri (fun i part ->
     let chunks = chunks_of stream part in
     let m = match feed recv init chunks with
-      | Done (_, out) -> join "," (List.map (msg_s proto) out)
+      | Done (s, out) -> summ out s
       | Oob -> "OOB" | OutOfFuel -> "OUTOFFUEL" in
     if m <> refm then agree := false;
     let cnt = ref 0 in
@@ -40,6 +39,17 @@ let run_proto proto recv init st_s reference stream parts =
     Buffer.add_string b (Printf.sprintf "m%d=%s;s%d=%s;" i m i (join "," tr))) parts;
   Buffer.add_string b (Printf.sprintf "agree=%s" (bool01 !agree));
   (Buffer.contents b, refm)
+
+let run_proto proto recv init st_s reference stream parts =
+  run_gen recv init st_s (fun out _ -> join "," (List.map (msg_s proto) out))
+    (join "," (List.map (msg_s proto) (reference stream))) stream parts
+
+(* RPC: what the export map of the real channel shows: frames dispatched, by type, and whether the
+   channel was closed *)
+let rpc_summary (out : msg list) (closed : bool) =
+  let c t = List.length (List.filter (fun (l, _) -> int_of_n l = t) out) in
+  Printf.sprintf "%d/%d/%d/%d/%d/%d/%d%s" (List.length out) (c 1) (c 2) (c 3) (c 4) (c 5) (c 10)
+    (if closed then "X" else "")
 
 let classify proto stream refm nparts =
   let nmsg = if refm = "-" then 0 else List.length (String.split_on_char ',' refm) in
@@ -68,6 +78,22 @@ let handle (p : string) : string =
        Printf.sprintf "ret=%d;n=%d;buf=%s;used=%d;class=%s" (int_of_z ret) (int_of_n n) (hex_of_bytes b)
          (List.length src - List.length rest) cls
      | ROob -> "ret=OOB;class=" ^ cls)
+  | ["rpc"; _cap; stream; parts; bad] ->
+    let stream = bytes_of_hex stream in
+    let parts = String.split_on_char '/' parts in
+    let bad = if bad = "-" then [] else List.map bytes_of_hex (String.split_on_char ',' bad) in
+    let ok body = not (List.mem body bad) in
+    let (rm, rc) = ref_rpc ok stream in
+    let refm = rpc_summary rm rc in
+    let (r, _) = run_gen (p_recv ok) p_init
+        (fun s -> if s.p_closed then "X" else
+            Printf.sprintf "e%dc%dh%d" (int_of_n s.p_exp) (if int_of_n s.p_exp = 0 then 0 else int_of_n s.p_cur)
+              (List.length s.p_hdr))
+        (fun out s -> rpc_summary out s.p_closed) refm stream parts in
+    let nm = List.length rm in
+    r ^ Printf.sprintf ";class=rpc:msgs%s%s"
+      (if nm = 0 then "0" else if nm = 1 then "1" else if nm < 5 then "2-4" else ">=5")
+      (if rc then ":closed" else "")
   | [proto; _cap; stream; parts] ->
     let stream = bytes_of_hex stream in
     let parts = String.split_on_char '/' parts in
